@@ -26,7 +26,7 @@ def run(ctx):
     cov["traces_validated_against_impl"] += t.get("traces_validated_against_impl") or 0
     n = cov.get("cut_points", 0) + w["ack_cut_positions"] * 3 + (t.get("cut_points") or 0)
     cov.update({"evaluations": n, "distinct_nontrivial": n,
-                "rule": "one case per (response type, version, codec, cut position k): the fake broker delivers exactly k bytes of the response frame and closes; every k of every frame in thorough, every k of the first 100 bytes plus a seeded sample in quick; non-trivial = k < frame length",
+                "rule": "one case per (response type, version, codec, cut position k): the fake broker delivers exactly k bytes of the response frame and closes; every k of every frame in thorough, every k of the first 100 bytes plus a seeded sample in quick; non-trivial = k < frame length; the Conn part also cuts, at every k in both tiers, Fetch v2/v5/v10 responses that carry a partition-level error code (1, 6, 3) and Fetch v10 responses with a response-level error code (with and without partition data behind it), each followed by a second operation on the same Conn",
                 "exhaustive": ctx.tier == "thorough"})
     return cov
 
